@@ -202,6 +202,24 @@ pub fn run(seed: u64, n: usize, out: &mut Out) {
         out.fail("psl-reference-missing", None, json!({"file": "/verif/data/psl_rules.txt"}));
     }
     let mut dom_cache: HashMap<String, String> = HashMap::new();
+    let catch_all = adblock::Engine::from_rules_parametrised(&["*$third-party".to_string(), "*$~third-party".to_string(), "*$document".to_string()], Default::default(), true, true);
+    // every type string against every kind of scheme: only http, https, ws and wss are eligible
+    for u in ["ftp://a.com/x", "data:text/plain,hi", "chrome-extension://abc/x.js", "file:///etc/x", "gopher://a.com/", "about:blank", "blob:https://a.com/uuid", "FTP://a.com/x", "wsx://a.com/", "httpx://a.com/", "https://a.com/x", "HTTP://a.com/x", "ws://a.com/x", "WSS://a.com/x"] {
+        for ty in ["websocket", "script", "document", "main_frame", "xhr", "image", "other", "sub_frame", "ping", "beacon", "font", "media", "object", "stylesheet", "", "nonsense"] {
+            for src in ["https://a.com/", "https://b.org/", ""] {
+                if let Ok(q) = adblock::request::Request::new(u, src, ty) {
+                    let scheme = u.split(':').next().unwrap().to_ascii_lowercase();
+                    let eligible = matches!(scheme.as_str(), "http" | "https" | "ws" | "wss");
+                    let v = catch_all.check_network_request(&q);
+                    if (v.matched || v.exception.is_some()) != eligible {
+                        out.fail(if eligible { "supported-request-not-matched-by-a-catch-all-rule" } else { "unsupported-scheme-request-matched" }, None,
+                            json!({"case": {"url": u, "source_url": src, "type": ty}, "schema": scheme}));
+                    }
+                    out.bump("eligibility_grid");
+                }
+            }
+        }
+    }
     for _ in 0..n {
         let host = any_host(&mut r, &psl);
         let url = if r.pct(4) { r.pick(&["", " ", "http", "http:", "http://", "https:///", "://x", "a", "\u{e9}", "http://@", "http://:80", "http://a@", "http://\t", "x:y", "x://", "x://h", "data:text/plain,hi", "about:blank", "file:///etc/passwd", "blob:https://a.com/uuid"]).to_string() } else { any_url(&mut r, &host) };
@@ -284,6 +302,19 @@ pub fn run(seed: u64, n: usize, out: &mut Out) {
                 }
                 if ws && q.request_type != adblock::request::RequestType::Websocket {
                     out.fail("websocket-scheme-without-websocket-type", None, json!({"case": desc, "type": format!("{:?}", q.request_type)}));
+                }
+                // (b') eligibility at the engine: a catch-all list answers "no match" to every request outside
+                // http(s) / ws(s), whatever its type, and matches every request inside
+                {
+                    let v = catch_all.check_network_request(q);
+                    let hit = v.matched || v.exception.is_some();
+                    if !supported && hit {
+                        out.fail("unsupported-scheme-request-matched", None, json!({"case": desc, "schema": schema, "type": format!("{:?}", q.request_type)}));
+                    }
+                    if supported && !hit && !matches!(q.request_type, adblock::request::RequestType::Csp) {
+                        out.fail("supported-request-not-matched-by-a-catch-all-rule", None, json!({"case": desc, "schema": schema, "type": format!("{:?}", q.request_type)}));
+                    }
+                    out.bump(if supported { "eligible_requests" } else { "ineligible_requests" });
                 }
                 // (c) party
                 let expect_third = match &parsed_src {
